@@ -306,7 +306,7 @@ ANIaddentry(int32    an_id, /* IN: annotation interface id */
     HEclear();
 
     /* convert an_id i.e. file_id to file rec and check for validity */
-    file_rec = HAatom_object(an_id);
+    file_rec = HIfile_rec(an_id);
     if (BADFREC(file_rec))
         HGOTO_ERROR(DFE_ARGS, FAIL);
 
@@ -433,7 +433,7 @@ ANIcreate_ann_tree(int32    an_id,/* IN: annotation interface id */
     HEclear();
 
     /* convert an_id i.e. file_id to file rec and check for validity */
-    file_rec = HAatom_object(an_id);
+    file_rec = HIfile_rec(an_id);
     if (BADFREC(file_rec))
         HGOTO_ERROR(DFE_ARGS, FAIL);
 
@@ -612,7 +612,7 @@ ANInumann(int32    an_id,  /* IN: annotation interface id */
     HEclear();
 
     /* convert an_id i.e. file_id to file rec and check for validity */
-    file_rec = HAatom_object(an_id);
+    file_rec = HIfile_rec(an_id);
     if (BADFREC(file_rec))
         HGOTO_ERROR(DFE_ARGS, FAIL);
 
@@ -673,7 +673,7 @@ ANIannlist(int32    an_id,  /* IN: annotation interface id */
     HEclear();
 
     /* convert an_id i.e. file_id to file rec and check for validity */
-    file_rec = HAatom_object(an_id);
+    file_rec = HIfile_rec(an_id);
     if (BADFREC(file_rec))
         HGOTO_ERROR(DFE_ARGS, FAIL);
 
@@ -954,7 +954,7 @@ ANIwriteann(int32       ann_id, /* IN: annotation id */
     ann_ref = AN_KEY2REF(ann_key);
 
     /* convert file_id to file rec and check for validity */
-    file_rec = HAatom_object(file_id);
+    file_rec = HIfile_rec(file_id);
     if (BADFREC(file_rec))
         HGOTO_ERROR(DFE_INTERNAL, FAIL);
 
@@ -1150,7 +1150,7 @@ ANstart(int32 file_id /* IN: file to start annotation access on*/)
     HEclear();
 
     /* convert file id to file rec and check for validity */
-    file_rec = HAatom_object(file_id);
+    file_rec = HIfile_rec(file_id);
     if (BADFREC(file_rec))
         HGOTO_ERROR(DFE_ARGS, FAIL);
 
@@ -1195,7 +1195,7 @@ ANfileinfo(int32  an_id,        /* IN:  annotation interface id */
     HEclear();
 
     /* convert an_id i.e. file_id to file rec and check for validity */
-    file_rec = HAatom_object(an_id);
+    file_rec = HIfile_rec(an_id);
     if (BADFREC(file_rec))
         HGOTO_ERROR(DFE_ARGS, FAIL);
 
@@ -1258,7 +1258,7 @@ ANend(int32 an_id /* IN: Annotation ID of file to close */)
     HEclear();
 
     /* convert an_id i.e. file_id to file rec and check for validity */
-    file_rec = HAatom_object(an_id);
+    file_rec = HIfile_rec(an_id);
     if (BADFREC(file_rec))
         HGOTO_ERROR(DFE_ARGS, FAIL);
 
@@ -1457,7 +1457,7 @@ ANselect(int32    an_id, /* IN: annotation interface ID */
     HEclear();
 
     /* convert an_id i.e. file_id to file rec and check for validity */
-    file_rec = HAatom_object(an_id);
+    file_rec = HIfile_rec(an_id);
     if (BADFREC(file_rec))
         HGOTO_ERROR(DFE_ARGS, FAIL);
 
@@ -1702,7 +1702,7 @@ ANget_tagref(int32    an_id, /* IN: annotation interface ID */
     HEclear();
 
     /* convert an_id i.e. file_id to file rec and check for validity */
-    file_rec = HAatom_object(an_id);
+    file_rec = HIfile_rec(an_id);
     if (BADFREC(file_rec))
         HGOTO_ERROR(DFE_ARGS, FAIL);
 
@@ -1848,7 +1848,7 @@ ANtagref2id(int32  an_id,   /* IN  Annotation interface id */
     HEclear();
 
     /* convert an_id i.e. file_id to file rec and check for validity */
-    file_rec = HAatom_object(an_id);
+    file_rec = HIfile_rec(an_id);
     if (BADFREC(file_rec))
         HGOTO_ERROR(DFE_ARGS, FAIL);
 
